@@ -82,6 +82,9 @@ THEOREMS = [
     "OllamaVerif.C08.allTrusted_empty",
     "OllamaVerif.C08.crash_history_present_persists",
     "OllamaVerif.C08.present_get",
+    "OllamaVerif.C08.put_ok_stays_retrievable",
+    "OllamaVerif.C08.import_ok_stays_retrievable",
+    "OllamaVerif.C08.stepOpL_eq_stepOp",
     "OllamaVerif.C08.crashHist_nonvacuous",
     "OllamaVerif.C08.size_lie_after_crash_present_wrong_content",
     "OllamaVerif.C08.undisciplined_put_destroys_linked_blob",
